@@ -12,7 +12,9 @@
 
    Part 2 is one pure operator per entry point of a request / push stream
    (a HEADERS frame, a PUSH_PROMISE frame, a DATA frame, the end of the
-   stream) plus an action per operator, and the invariants TLC checks (M).
+   stream); the actions built from them and the invariants TLC checks (M)
+   are in HeaderRulesMC (this module declares no variables, so that the case
+   generator and the trace module can extend it).
 
    Part 3 ("Impl...") are the additional rules the implementation applies on
    top of the statement (non-initial colon, allow / required lists per kind,
@@ -21,7 +23,7 @@
 
    A header is <<name, value>>, both Seq(0..255).  A header list is a sequence
    of headers. *)
-EXTENDS Naturals, Sequences, FiniteSets
+EXTENDS Naturals, Integers, Sequences, FiniteSets
 
 NUL == 0   HT == 9   LF == 10   CR == 13   SP == 32   COLON == 58
 H3_MESSAGE_ERROR == 270                      \* 0x10E
@@ -101,27 +103,54 @@ BrokenRule(kind, hs) ==
   ELSE IF ~RequiredPresent(kind, hs) THEN "pseudo-missing"
   ELSE "none"
 
-\* content-length: a value "declares" a length when it is 1*DIGIT (at most 9
-\* digits here: TLC integers are 32 bit); any other spelling declares nothing
-\* as far as the statement goes
+\* content-length: a value "declares" a length when it is 1*DIGIT; any other
+\* spelling declares nothing as far as the statement goes.  TLC integers are
+\* 32 bit: a number of more than 9 significant digits is Huge, which no body
+\* of a judged scenario reaches.
 IsDigit(c) == c >= 48 /\ c <= 57
-IsDigits(v) == Len(v) > 0 /\ Len(v) <= 9 /\ \A i \in DOMAIN v : IsDigit(v[i])
-RECURSIVE DecVal(_)
-DecVal(v) == IF v = <<>> THEN 0 ELSE 10 * DecVal(SubSeq(v, 1, Len(v) - 1)) + (v[Len(v)] - 48)
+IsDigits(v) == Len(v) > 0 /\ \A i \in DOMAIN v : IsDigit(v[i])
+Huge == 2147483647
+RECURSIVE NoLeadingZeros(_)
+NoLeadingZeros(v) == IF v # <<>> /\ v[1] = 48 THEN NoLeadingZeros(Tail(v)) ELSE v
+RECURSIVE DecValSmall(_)
+DecValSmall(v) == IF v = <<>> THEN 0 ELSE 10 * DecValSmall(SubSeq(v, 1, Len(v) - 1)) + (v[Len(v)] - 48)
+DecVal(v) == LET w == NoLeadingZeros(v) IN IF Len(w) > 9 THEN Huge ELSE DecValSmall(w)
 Declared(hs) == {DecVal(hs[i][2]) : i \in {j \in DOMAIN hs : hs[j][1] = ContentLength /\ IsDigits(hs[j][2])}}
 
+\* The most liberal reading of a value as a number (it is the one of Python's
+\* int()): optional surrounding whitespace, optional sign, digits grouped by
+\* single underscores.
+NumWs == {9, 10, 11, 12, 13, 32}
+RECURSIVE LStrip(_)
+LStrip(v) == IF v # <<>> /\ v[1] \in NumWs THEN LStrip(Tail(v)) ELSE v
+RECURSIVE RStrip(_)
+RStrip(v) == IF v # <<>> /\ v[Len(v)] \in NumWs THEN RStrip(SubSeq(v, 1, Len(v) - 1)) ELSE v
+NumBody(v) == LET w == RStrip(LStrip(v)) IN IF w # <<>> /\ w[1] \in {43, 45} THEN Tail(w) ELSE w
+NumNeg(v) == LET w == LStrip(v) IN w # <<>> /\ w[1] = 45
+NumDigitsOf(u) == SelectSeq(u, IsDigit)
+LooseOk(v) ==
+  LET u == NumBody(v) IN
+  /\ Len(u) > 0 /\ IsDigit(u[1]) /\ IsDigit(u[Len(u)])
+  /\ \A i \in DOMAIN u : IsDigit(u[i]) \/ (u[i] = 95 /\ IsDigit(u[i - 1]) /\ IsDigit(u[i + 1]))
+LooseVal(v) == LET x == DecVal(NumDigitsOf(NumBody(v))) IN IF NumNeg(v) THEN 0 - x ELSE x
+LooseDeclared(hs) == {LooseVal(hs[i][2]) : i \in {j \in DOMAIN hs : hs[j][1] = ContentLength /\ LooseOk(hs[j][2])}}
+
 \* "a declared content-length equals the number of body bytes delivered"
-ContentLengthOk(declared, body) == \A d \in declared : d = body
-\* broken under every reading of the statement: no declared value matches.
-\* (Several differing declarations of which one matches: the statement is not
-\* explicit; the model-level clauses report an acceptance of those.)
-CertainMismatch(declared, body) == declared # {} /\ body \notin declared
+\* The strict reading: every declared value equals the body.
+ContentLengthOk(hs, body) == \A d \in Declared(hs) : d = body
+\* What is judged: broken under every reading of the statement - a length is
+\* declared and the body equals no content-length field of the block however
+\* liberally read.  (A block with several content-length fields that differ,
+\* one of which matches, is where the statement is not explicit: the
+\* implementation keeps the last field; it is reported in the evidence, not
+\* judged.  Judge with ContentLengthOk instead to take the strict reading.)
+CertainMismatch(declared, loose, body) == declared # {} /\ body \notin (declared \cup loose)
 
 ---------------------------------------------------------------------------
 (* Part 2: a request / push stream, one operator per entry point *)
 
 Roles == {"server", "client"}        \* server: receives requests; client: responses and push promises
-InitStream == [phase |-> "initial", declared |-> {}, body |-> 0, ended |-> FALSE, closed |-> 0]
+InitStream == [phase |-> "initial", declared |-> {}, loose |-> {}, body |-> 0, ended |-> FALSE, closed |-> 0]
 
 HF(hs) == [t |-> "H", hs |-> hs, n |-> 0]
 PF(hs) == [t |-> "P", hs |-> hs, n |-> 0]
@@ -142,14 +171,15 @@ FrameLegal(role, s, f) ==
 
 \* state after the frame has been accepted
 AcceptF(role, s, f) ==
-  CASE f.t = "H" /\ s.phase = "initial" -> [s EXCEPT !.phase = "headers", !.declared = Declared(f.hs)]
+  CASE f.t = "H" /\ s.phase = "initial" -> [s EXCEPT !.phase = "headers", !.declared = Declared(f.hs),
+                                                      !.loose = LooseDeclared(f.hs)]
     [] f.t = "H" /\ s.phase # "initial" -> [s EXCEPT !.phase = "trailers"]
     [] f.t = "D" -> [s EXCEPT !.body = s.body + f.n]
     [] OTHER     -> s
 
 \* the statement: this frame (with the end of the stream when fin) breaks a rule
 HeadersBroken(role, s, f) == f.t \in {"H", "P"} /\ ~WellFormed(KindOf(role, s, f), f.hs)
-EndBroken(s) == CertainMismatch(s.declared, s.body)
+EndBroken(s) == CertainMismatch(s.declared, s.loose, s.body)
 MustRefuse(role, s, f, fin) ==
   \/ HeadersBroken(role, s, f)
   \/ fin /\ EndBroken(AcceptF(role, s, f))
@@ -169,47 +199,6 @@ FinF(s) ==
   ELSE {[st |-> [s EXCEPT !.ended = TRUE], out |-> Accepted]}
        \cup {[st |-> [s EXCEPT !.closed = c], out |-> Closed(c)] : c \in {H3_MESSAGE_ERROR, H3_GENERAL_PROTOCOL_ERROR}}
 
-\* --- model checking: a small universe of frames ---
-CONSTANTS MaxBody        \* model checking only: body bytes per stream
-VARIABLES role, st, seen, out
-vars == <<role, st, seen, out>>
-
-h(n, v) == <<n, v>>
-Va == <<97>>
-MPool == {h(PMethod, Va), h(PStatus, Va), h(PPath, Va), h(<<58, 97>>, Va), h(Va, Va), h(<<65>>, Va),
-          h(Va, <<32>>), h(ContentLength, <<49>>), h(ContentLength, <<50>>), h(ContentLength, <<43, 49>>)}
-MLists == UNION {[1..k -> MPool] : k \in 0..2}
-MFrames == {HF(x) : x \in MLists} \cup {PF(x) : x \in MLists} \cup {DF(n) : n \in 0..2}
-
-Init == /\ role \in Roles /\ st = InitStream /\ seen = {} /\ out = Accepted
-Open == st.closed = 0 /\ ~st.ended
-RecvFrame(f, fin) ==
-  /\ Open /\ FrameLegal(role, st, f)
-  /\ f.t = "D" => st.body + f.n <= MaxBody
-  /\ \E r \in FrameF(role, st, f, fin) :
-       /\ st' = r.st /\ out' = r.out
-       /\ seen' = IF r.out.k = "Accept" /\ f.t \in {"H", "P"}
-                  THEN seen \cup {<<KindOf(role, st, f), f.hs>>} ELSE seen
-  /\ UNCHANGED role
-RecvFin ==
-  /\ Open
-  /\ \E r \in FinF(st) : st' = r.st /\ out' = r.out
-  /\ UNCHANGED <<role, seen>>
-Next == RecvFin \/ \E f \in MFrames, fin \in BOOLEAN : RecvFrame(f, fin)
-Spec == Init /\ [][Next]_vars
-
-TypeOk == /\ st.phase \in {"initial", "headers", "trailers"} /\ st.body \in 0..MaxBody
-          /\ st.ended \in BOOLEAN /\ st.closed \in {0, H3_MESSAGE_ERROR, H3_GENERAL_PROTOCOL_ERROR}
-\* every header block handed to the application is well-formed
-DeliveredWellFormed == \A e \in seen : WellFormed(e[1], e[2])
-\* when a stream has ended (and the application was told), content-length agrees
-EndedMatches == st.ended => ~CertainMismatch(st.declared, st.body)
-\* a refusal of a rule-breaking message carries the message error
-MessageErrorOnBreak ==
-  [][\A f \in MFrames, fin \in BOOLEAN :
-       (Open /\ FrameLegal(role, st, f) /\ MustRefuse(role, st, f, fin) /\ st'.closed # 0 /\ out'.k = "Close"
-        /\ st' \in {r.st : r \in FrameF(role, st, f, fin)}) => st'.closed = H3_MESSAGE_ERROR]_vars
-
 ---------------------------------------------------------------------------
 (* Part 3: what the implementation does on top of the statement (model: only) *)
 
@@ -222,23 +211,8 @@ ImplRequired(kind) == CASE kind = "request"  -> {PMethod, PAuthority}
                         [] kind = "response" -> {PStatus}
                         [] kind = "trailers" -> {}
 
-\* Python int(bytes): optional surrounding whitespace, optional sign, digits
-\* with single underscores between digits
-PyWs == {9, 10, 11, 12, 13, 32}
-RECURSIVE LStrip(_)
-LStrip(v) == IF v # <<>> /\ v[1] \in PyWs THEN LStrip(Tail(v)) ELSE v
-RECURSIVE RStrip(_)
-RStrip(v) == IF v # <<>> /\ v[Len(v)] \in PyWs THEN RStrip(SubSeq(v, 1, Len(v) - 1)) ELSE v
-PyBody(v) == LET w == RStrip(LStrip(v)) IN IF w # <<>> /\ w[1] \in {43, 45} THEN Tail(w) ELSE w
-PyNeg(v) == LET w == LStrip(v) IN w # <<>> /\ w[1] = 45
-PyDigitsOf(u) == SelectSeq(u, IsDigit)
-PyIntOk(v) ==
-  LET u == PyBody(v) IN
-  /\ Len(u) > 0 /\ IsDigit(u[1]) /\ IsDigit(u[Len(u)])
-  /\ \A i \in DOMAIN u : IsDigit(u[i]) \/ (u[i] = 95 /\ IsDigit(u[i - 1]) /\ IsDigit(u[i + 1]))
-  /\ Len(PyDigitsOf(u)) <= 9
-PyIntVal(v) == DecVal(PyDigitsOf(PyBody(v)))
-ImplContentLengthOk(v) == PyIntOk(v) /\ (PyNeg(v) => PyIntVal(v) = 0)
+\* content-length must parse with Python's int() and not be negative
+ImplContentLengthOk(v) == LooseOk(v) /\ LooseVal(v) >= 0
 
 ValueOf(hs, name, default) ==
   IF \E i \in DOMAIN hs : hs[i][1] = name THEN hs[CHOOSE i \in DOMAIN hs : hs[i][1] = name][2] ELSE default
@@ -258,5 +232,5 @@ ImplHeadersOk(kind, hs) ==
 \* request / response block (-1: none); trailers and push promises declare nothing
 ImplExpected(hs) ==
   LET I == {i \in DOMAIN hs : hs[i][1] = ContentLength} IN
-  IF I = {} THEN -1 ELSE PyIntVal(hs[CHOOSE i \in I : \A j \in I : j <= i][2])
+  IF I = {} THEN -1 ELSE LooseVal(hs[CHOOSE i \in I : \A j \in I : j <= i][2])
 ============================================================================
